@@ -227,6 +227,17 @@ fn check_f64(v: f64, acc: &mut Acc) {
         Err(_) => false,
     };
     acc.record("double", format!("bits:{:#018x}", v.to_bits()), &t, rt, model_double_spelling_ok(&t, v), f64_class(v));
+    // the set / map-key wrapper (set<double> query parameters) spells and parses the same way
+    let k = conjure_object::DoubleKey(v);
+    let tk = k.to_plain();
+    let back = conjure_object::DoubleKey::from_plain(&tk);
+    let rtk = match back {
+        Ok(b) => (b.0.is_nan() && v.is_nan()) || b.0.to_bits() == v.to_bits(),
+        Err(_) => false,
+    };
+    if !rtk || tk != t {
+        acc.record("doublekey", format!("bits:{:#018x}", v.to_bits()), &tk, rtk, tk == t, f64_class(v));
+    }
 }
 
 fn check_i32(v: i32, acc: &mut Acc) {
@@ -647,7 +658,7 @@ fn replay(path: &str, mut report: Report) -> Report {
     let val = case["value"].as_str().unwrap_or("");
     let mut acc = Acc::default();
     match case["type"].as_str().unwrap_or("") {
-        "double" => check_f64(f64::from_bits(u64::from_str_radix(val.trim_start_matches("bits:0x"), 16).unwrap()), &mut acc),
+        "double" | "doublekey" => check_f64(f64::from_bits(u64::from_str_radix(val.trim_start_matches("bits:0x"), 16).unwrap()), &mut acc),
         "integer" => check_i32(val.parse().unwrap(), &mut acc),
         "safelong" => check_safelong(val.parse().unwrap(), &mut acc),
         "uuid" => check_uuid(u128::from_str_radix(val.trim_start_matches("0x"), 16).unwrap(), &mut acc),
